@@ -6,6 +6,7 @@ package main
 
 import (
 	"fmt"
+	"strconv"
 	"go/ast"
 	"go/token"
 	"strings"
@@ -20,6 +21,7 @@ func init() {
 	gens["Src_mw_handlers.v"] = genGoLiteMiddleware
 	gens["Src_gzip.v"] = genGoLiteGzip
 	gens["Src_errorhandler.v"] = genGoLiteErrorHandler
+	gens["Src_cors.v"] = genGoLoopCORS
 }
 
 // innerHandler finds the innermost function literal of shape func(c echo.Context) error inside fd.
@@ -90,11 +92,20 @@ type goliteCfg struct {
 	recv   string
 	locals map[string]bool
 	tail   map[string]bool      // return f(...): f is called (an event) and its result returned
+	loop   bool                 // emit the GoLoop dialect (Base/GoLoop.v): values are integers or strings, range loops, break, pure predicates
+	pure   map[string]bool      // pure functions of the environment: calls become EPred
 	strfn  map[string]bool      // functions known to return a string (for the type-test cells of a field set from their result)
 	objs   map[string][]string  // local variables holding a pointer to a struct, with the fields that are read: scalar-replaced into cells "v.f"
 	grow   map[string][2]string // external call -> (cell, amount cell): the call makes the cell grow (bytes.Buffer.Write: Len() grows by len(b))
 	pre    []string             // external calls met inside an expression: hoisted in front of the statement
 	ntmp   int
+}
+
+func (g *goliteCfg) z(n string) string {
+	if g.loop {
+		return "EV (VZ " + n + ")"
+	}
+	return "EZ " + n
 }
 
 func (g *goliteCfg) str(s string) string { return "\"" + strings.ReplaceAll(s, "\"", "\"\"") + "\"" }
@@ -105,17 +116,24 @@ func (g *goliteCfg) expr(e ast.Expr) (string, error) {
 		return g.expr(v.X)
 	case *ast.BasicLit:
 		if v.Kind == token.INT {
-			return "EZ " + v.Value, nil
+			return g.z(v.Value), nil
 		}
 		if v.Kind == token.STRING {
+			if g.loop {
+				s, err := strconv.Unquote(v.Value)
+				if err != nil {
+					return "", err
+				}
+				return "EV (VS (lit " + g.str(s) + "))", nil
+			}
 			return "ESym " + g.str(v.Value), nil
 		}
 	case *ast.Ident:
 		switch v.Name {
 		case "true":
-			return "EZ 1", nil
+			return g.z("1"), nil
 		case "false":
-			return "EZ 0", nil
+			return g.z("0"), nil
 		case "nil":
 			return "ESym \"nil\"", nil
 		}
@@ -149,6 +167,17 @@ func (g *goliteCfg) expr(e ast.Expr) (string, error) {
 		}
 		if g.cells[n] {
 			return "EField " + g.str(n), nil
+		}
+		if g.pure[fn] {
+			args, _ := g.exprs(v.Args)
+			return fmt.Sprintf("EPred %s %s", g.str(fn), args), nil
+		}
+		if se, ok := v.Fun.(*ast.SelectorExpr); ok && g.pure["."+se.Sel.Name] {
+			// a pure method of a local value (a compiled pattern): the receiver is the first argument
+			if id, ok := se.X.(*ast.Ident); ok && g.locals[id.Name] {
+				args, _ := g.exprs(append([]ast.Expr{id}, v.Args...))
+				return fmt.Sprintf("EPred %s %s", g.str("."+se.Sel.Name), args), nil
+			}
 		}
 		if g.extern[fn] {
 			g.ntmp++
@@ -283,7 +312,7 @@ func (g *goliteCfg) stmt(s ast.Stmt) ([]string, error) {
 			for _, n := range vs.Names {
 				g.locals[n.Name] = true
 				if len(vs.Values) == 0 {
-					out = append(out, fmt.Sprintf("SSet %s (EZ 0)", g.str(n.Name)))
+					out = append(out, fmt.Sprintf("SSet %s (%s)", g.str(n.Name), g.z("0")))
 				} else {
 					return nil, fmt.Errorf("initialised var declaration is not understood")
 				}
@@ -299,7 +328,7 @@ func (g *goliteCfg) stmt(s ast.Stmt) ([]string, error) {
 		if v.Tok == token.DEC {
 			op = "ESub"
 		}
-		a, err := g.assignTo(v.X, fmt.Sprintf("%s (%s) (EZ 1)", op, x))
+		a, err := g.assignTo(v.X, fmt.Sprintf("%s (%s) (%s)", op, x, g.z("1")))
 		return []string{a}, err
 	case *ast.AssignStmt:
 		if out, ok, err := g.objAssign(v); ok {
@@ -325,6 +354,19 @@ func (g *goliteCfg) stmt(s ast.Stmt) ([]string, error) {
 			}
 		}
 		if len(v.Lhs) == 2 && len(v.Rhs) == 1 {
+			// v, ok := X.(T): the dynamic type is outside the function - value and ok come from the input stream
+			if ta, ok := v.Rhs[0].(*ast.TypeAssertExpr); ok {
+				var xs []string
+				for _, l := range v.Lhs {
+					id, ok := l.(*ast.Ident)
+					if !ok {
+						return nil, fmt.Errorf("results of a type assertion must go to plain variables")
+					}
+					g.locals[id.Name] = true
+					xs = append(xs, g.str(id.Name))
+				}
+				return []string{fmt.Sprintf("SCall [%s] %s []", strings.Join(xs, "; "), g.str(lit(ta)))}, nil
+			}
 			// v, ok := m[k]: the map is outside the function - its answer comes from the input stream
 			if ie, ok := v.Rhs[0].(*ast.IndexExpr); ok {
 				var xs []string
@@ -438,7 +480,7 @@ func (g *goliteCfg) stmt(s ast.Stmt) ([]string, error) {
 			}
 			chain = fmt.Sprintf("[SIf (EField %s)\n    %s\n    %s]", g.str(lit(ta.X)+".("+lit(cc.List[0])+")"), body, chain)
 		}
-		return []string{bind, "SIf (EZ 1)\n    " + chain + "\n    []"}, nil
+		return []string{bind, "SIf (" + g.z("1") + ")\n    " + chain + "\n    []"}, nil
 	case *ast.IfStmt:
 		var pre []string
 		if v.Init != nil {
@@ -474,7 +516,26 @@ func (g *goliteCfg) stmt(s ast.Stmt) ([]string, error) {
 			e = "[" + strings.Join(xs, "; ") + "]"
 		}
 		return append(pre, fmt.Sprintf("SIf (%s)\n    %s\n    %s", c, t, e)), nil
+	case *ast.BranchStmt:
+		if g.loop && v.Tok == token.BREAK && v.Label == nil {
+			return []string{"SBreak"}, nil
+		}
+		return nil, fmt.Errorf("%s is not understood", v.Tok)
 	case *ast.RangeStmt:
+		if g.loop {
+			// for _, x := range L { ... }: L is a list cell
+			k, isK := v.Key.(*ast.Ident)
+			x, isX := v.Value.(*ast.Ident)
+			if !isK || k.Name != "_" || !isX {
+				return nil, fmt.Errorf("range loop over %s: only `for _, x := range` is understood", lit(v.X))
+			}
+			g.locals[x.Name] = true
+			body, err := g.block(v.Body.List)
+			if err != nil {
+				return nil, err
+			}
+			return []string{fmt.Sprintf("SRange %s %s\n    %s", g.str(x.Name), g.str(lit(v.X)), body)}, nil
+		}
 		// only: for _, fn := range <receiver field> { fn() }  (a list of hooks run in order)
 		if len(v.Body.List) == 1 {
 			if es, ok := v.Body.List[0].(*ast.ExprStmt); ok {
@@ -761,4 +822,18 @@ func genGoLiteErrorHandler(repo string) (string, error) {
 		return "", err
 	}
 	return goliteHeader + "(* echo.go: Echo.DefaultHTTPErrorHandler.  The error values are scalar-replaced: the cells \"he.Code\", \"he.Message\",\n   \"he.Internal\" and the type tests \"he.Message.(string)\" ... of the HTTPError the variable points to; a type assertion\n   of X to a pointer to HTTPError answers ok from the input stream and its fields are the cells named after the assertion.\n   c.NoContent and c.JSON are external calls (events; their error result comes from the input stream). *)\n" + s, nil
+}
+
+const goloopHeader = "(* GENERATED by go/gen (golite.go, GoLoop dialect) - do not edit *)\nFrom Coq Require Import List String ZArith.\nFrom Echo Require Import Base.Sx Base.GoLoop.\nImport ListNotations.\nOpen Scope string_scope.\nOpen Scope Z_scope.\n\n"
+
+func genGoLoopCORS(repo string) (string, error) {
+	s, err := goliteClosure(repo, "middleware/cors.go", "CORSWithConfig", "cors_handler", goliteCfg{loop: true,
+		ignore: map[string]bool{}, cells: map[string]bool{},
+		tail:   map[string]bool{"next": true, "c.NoContent": true},
+		pure:   map[string]bool{"len": true, "strings.Contains": true, "matchSubdomain": true, ".MatchString": true},
+		extern: map[string]bool{"config.Skipper": true, "config.AllowOriginFunc": true}})
+	if err != nil {
+		return "", err
+	}
+	return goloopHeader + "(* middleware/cors.go: the request handler (innermost closure) of CORSWithConfig.  The configuration and the values\n   computed by the constructor (allowMethods, exposeHeaders, hasCustomAllowMethods ...) are named constants; the request's\n   Origin and method are constants of one run; config.AllowOrigins and allowOriginPatterns are list cells; len,\n   strings.Contains, matchSubdomain and a pattern's MatchString are pure predicates; header changes are events. *)\n" + s, nil
 }
